@@ -225,3 +225,43 @@ impl<F: Future> Slot<F> {
         self.live
     }
 }
+
+// ---------------------------------------------------------------------------
+// Typed side log for cfg(remoc_verif) instrumentation (remoc itself forbids `unsafe`, and
+// `dyn Any` down-casts are not supported by Kani 0.68).
+
+static mut SIDE_LOG: Vec<(*mut u8, usize)> = Vec::new();
+
+/// Appends a value to the side log.
+#[allow(static_mut_refs)]
+pub fn side_log_push<E: 'static>(e: E) {
+    let p = Box::into_raw(Box::new(e)) as *mut u8;
+    // Safety: the model is single-threaded.
+    unsafe { SIDE_LOG.push((p, std::mem::size_of::<E>())) }
+}
+
+/// Takes the whole side log; every entry must have been pushed with type `E`
+/// (checked by size only: callers use one event type per run).
+#[allow(static_mut_refs)]
+pub fn side_log_take<E: 'static>() -> Vec<E> {
+    // Safety: the model is single-threaded; entries were created by `side_log_push::<E>`.
+    let log = unsafe { std::mem::take(&mut SIDE_LOG) };
+    let mut out = Vec::with_capacity(log.len());
+    let mut i = 0;
+    while i < log.len() {
+        let (p, sz) = log[i];
+        assert!(sz == std::mem::size_of::<E>(), "side log entry of another type");
+        out.push(*unsafe { Box::from_raw(p as *mut E) });
+        i += 1;
+    }
+    std::mem::forget(log);
+    out
+}
+
+/// Reinterprets a `u32` as `T` (which must be a 4-byte plain integer type); lets a harness inside
+/// remoc (`forbid(unsafe_code)`) write a generic stub for `rand::random::<u32>()`.
+pub fn from_u32<T>(v: u32) -> T {
+    assert!(std::mem::size_of::<T>() == 4, "from_u32: T must be 4 bytes");
+    // Safety: only instantiated with u32.
+    unsafe { std::mem::transmute_copy::<u32, T>(&v) }
+}
